@@ -1,4 +1,398 @@
 package main
 
-func senGen(args []string)  {}
-func senExec(args []string) {}
+// C10: SEN writer -> SEN parser round trip. The driver writes a value with the real SEN writers, parses the
+// emitted bytes with a fresh sen.Parser (the memoryless reading of sen.Parse; parser reuse is C07) and records
+// {value, options, api, text, parsed value | error}. The trace specification TraceSen decides parsed = value.
+
+import (
+	"bufio"
+	"encoding/json"
+	"flag"
+	"fmt"
+	"math"
+	"math/big"
+	"math/rand"
+	"os"
+	"sort"
+	"strconv"
+	"time"
+
+	"github.com/ohler55/ojg"
+	"github.com/ohler55/ojg/pretty"
+	"github.com/ohler55/ojg/sen"
+
+	"verif/harness/absval"
+)
+
+type scase struct {
+	Tree M      `json:"tree"`
+	O    opts   `json:"o"`
+	P    []pcfg `json:"p"`
+	Src  string `json:"src,omitempty"`
+}
+
+type sout struct {
+	As []string `json:"as"` // the calls that produced exactly this text
+	X  []int    `json:"x"`  // the emitted text
+	R  any      `json:"r"`  // parsed value (abstract form) or {"t":"none"}
+	Ek string   `json:"ek"` // "" | write-error | write-panic | parse-error | parse-panic
+	E  string   `json:"e"`  // the message
+}
+
+// project turns what sen.Parse returned into the abstract form (numbers with their exact decimal value)
+func project(v any) M {
+	switch t := v.(type) {
+	case nil:
+		return M{"t": "null"}
+	case bool:
+		return M{"t": "bool", "v": t}
+	case int64:
+		return M{"t": "int", "dec": absval.Dec(strconv.FormatInt(t, 10))}
+	case int:
+		return M{"t": "int", "dec": absval.Dec(strconv.Itoa(t))}
+	case float64:
+		if math.IsInf(t, 0) || math.IsNaN(t) {
+			return M{"t": "other", "go": "inf/nan"}
+		}
+		return M{"t": "flt", "dec": absval.RatDec(new(big.Rat).SetFloat64(t))}
+	case json.Number:
+		return M{"t": "big", "dec": absval.Dec(string(t))}
+	case string:
+		return M{"t": "str", "v": ints([]byte(t))}
+	case time.Time:
+		return M{"t": "other", "go": "time"}
+	case []any:
+		vs := make([]any, len(t))
+		for i, e := range t {
+			vs[i] = project(e)
+		}
+		return M{"t": "arr", "v": vs}
+	case map[string]any:
+		keys := make([]string, 0, len(t))
+		for k := range t {
+			keys = append(keys, k)
+		}
+		sort.Strings(keys)
+		ks, vs := make([]any, len(keys)), make([]any, len(keys))
+		for i, k := range keys {
+			ks[i] = ints([]byte(k))
+			vs[i] = project(t[k])
+		}
+		return M{"t": "obj", "k": ks, "v": vs}
+	}
+	return M{"t": "other", "go": fmt.Sprintf("%T", v)}
+}
+
+func readBack(text []byte) (r any, ek, e string) {
+	r = M{"t": "none"}
+	defer func() {
+		if rec := recover(); rec != nil {
+			ek, e = "parse-panic", fmt.Sprintf("%v", rec)
+			r = M{"t": "none"}
+		}
+	}()
+	p := sen.Parser{}
+	v, err := p.Parse(text)
+	if err != nil {
+		return r, "parse-error", err.Error()
+	}
+	return compress(project(v)), "", ""
+}
+
+func runSen(c scase, idx int) []byte {
+	simple, full := build(c.Tree, false)
+	type raw struct {
+		api   string
+		text  []byte
+		ek, e string
+	}
+	var raws []raw
+	call := func(api string, fn func() ([]byte, error)) {
+		r := raw{api: api}
+		func() {
+			defer func() {
+				if rec := recover(); rec != nil {
+					r.ek, r.e = "write-panic", fmt.Sprintf("%v", rec)
+				}
+			}()
+			b, err := fn()
+			if err != nil {
+				r.ek, r.e = "write-error", err.Error()
+			}
+			r.text = append([]byte{}, b...)
+		}()
+		raws = append(raws, r)
+	}
+	so := func(limit int) *ojg.Options {
+		return &ojg.Options{Indent: c.O.Indent, Tab: c.O.Tab, Sort: c.O.Sort, HTMLUnsafe: c.O.HTMLUnsafe, WriteLimit: limit}
+	}
+	call("sen.String", func() ([]byte, error) { return []byte(sen.String(simple, so(0))), nil })
+	call("sen.Bytes", func() ([]byte, error) { return sen.Bytes(simple, so(0)), nil })
+	n := len(raws[0].text)
+	for _, l := range []int{1, n/2 + 1, n + 1} {
+		l := l
+		call("sen.Write", func() ([]byte, error) {
+			r := &recorder{}
+			err := sen.Write(r, simple, so(l))
+			var b []byte
+			for _, ch := range r.chunks {
+				for _, x := range ch {
+					b = append(b, byte(x))
+				}
+			}
+			return b, err
+		})
+	}
+	for _, p := range c.P {
+		p := p
+		wd := float64(p.W) + float64(p.D)/10.0
+		call("pretty.SEN", func() ([]byte, error) { return []byte(pretty.SEN(simple, wd, p.Al, so(0))), nil })
+		for _, l := range []int{1, 1024} {
+			l := l
+			call("pretty.WriteSEN", func() ([]byte, error) {
+				r := &recorder{}
+				err := pretty.WriteSEN(r, simple, wd, p.Al, so(l))
+				var b []byte
+				for _, ch := range r.chunks {
+					for _, x := range ch {
+						b = append(b, byte(x))
+					}
+				}
+				return b, err
+			})
+		}
+	}
+	var outs []sout
+	idxOf := map[string]int{}
+	for _, r := range raws {
+		key := r.ek + "|" + r.e + "|" + string(r.text)
+		if i, ok := idxOf[key]; ok {
+			outs[i].As = append(outs[i].As, r.api)
+			continue
+		}
+		o := sout{As: []string{r.api}, X: ints(r.text), Ek: r.ek, E: r.e, R: M{"t": "none"}}
+		if r.ek == "" {
+			o.R, o.Ek, o.E = readBack(r.text)
+		}
+		if len(o.E) > 100 {
+			o.E = o.E[:100]
+		}
+		idxOf[key] = len(outs)
+		outs = append(outs, o)
+	}
+	return line(M{"tree": compress(full), "o": c.O, "outs": outs, "src": c.Src})
+}
+
+func senExec(args []string) {
+	var cases []scase
+	readLines(os.Stdin, func(l []byte) {
+		var c scase
+		if err := json.Unmarshal(l, &c); err != nil {
+			panic(err)
+		}
+		cases = append(cases, c)
+	})
+	res := parallel(len(cases), func(i int) []byte { return runSen(cases[i], i) })
+	w := bufio.NewWriterSize(os.Stdout, 1<<20)
+	for _, l := range res {
+		w.Write(l)
+	}
+	w.Flush()
+}
+
+// ---------------------------------------------------------------- C10 case generation
+// one representative per (senMap class x valueMap class x tokenMap class) of string.go / sen/maps.go, plus bytes that
+// matter for the reserved spellings
+var senReps = []byte{'a', 't', 'n', 'f', 'e', 'E', '0', '1', '9', '+', '-', '.', ' ', ',', ':', '/', '*', '(', ')', '[', ']', '{', '}',
+	'"', '\'', '\\', '`', '|', '&', '<', '>', '=', '#', '!', '%', ';', '?', '@', '$', '^', '_', '~', '\t', '\n', '\r', 0x01, 0x7f,
+	0x80, 0xc3, 0xe2, 0xff}
+
+var reserved = []string{"true", "false", "null", "True", "nul", "nulll", "truex", "0", "1", "-1", "+1", "-", "+", "--", "+-", "-a", "+a",
+	".5", "-.5", "1.5", "1e5", "1E5", "1e+5", "1e-5", "-0", "0.0", "1.", "01", "0x10", "123456789012345678901234567890", "1a", "a1",
+	"//x", "/*", "/* c */", "a//b", "a/*b", "/", "#x", "a(b)", "f(", "ISODate(1)", "a:b", ":", "a b", " a", "a ", "a,b", ",", "[", "]", "{", "}",
+	"[]", "{}", "\"", "'", "a\"b", "a'b", "\\", "a\\b", "`", "a`b", "|", "a|b", "&", "a&b", "<", "a<b", ">", "=", "a=b", "@", "$x", "*", "?",
+	"é", "€", "\U0001F600", "x�", " ", " ", "\xff", "a\x80", "\xc3", "\t", "\n", "a\nb", "\x00", "\x7f", "~", "^", "_",
+	"0123456789012345678901234567890123456789012345678901234567890123", "a123456789012345678901234567890123456789012345678901234567890123",
+	"a1234567890123456789012345678901234567890123456789012345678901234", "-123456789012345678901234567890123456789012345678901234567890123",
+	"nullnullnullnullnullnullnullnullnullnullnullnullnullnullnullnulln", "NaN", "Infinity", "-Infinity", "nan", "inf", "@2021-01-01", "2021-01-01T00:00:00Z"}
+
+func senGen(args []string) {
+	fs := flag.NewFlagSet("sengen", flag.ExitOnError)
+	tier := fs.String("tier", "quick", "quick|thorough")
+	shp := fs.String("shapes", "", "ndjson of TLC-enumerated tree shapes")
+	pred := fs.String("pred", "", "ndjson of strings the SenText design check predicts not to survive")
+	fs.Parse(args)
+	quick := *tier != "thorough"
+	r := rand.New(rand.NewSource(seed()))
+	var all [][]byte
+	emit := func(t M, o opts, ps []pcfg, src string) { all = append(all, line(scase{Tree: t, O: o, P: ps, Src: src})) }
+	sopts := func(k int) opts {
+		return opts{Indent: []int{0, 2, 0, 9}[k&3], Tab: k&3 == 2, Sort: k&4 != 0, HTMLUnsafe: k&8 != 0}
+	}
+	// every string in the four contexts: top level, array element, member value, member KEY
+	ctxs := func(s string) []M {
+		return []M{aStr(s), aArr(aStr(s)), aArr(aStr("x"), aStr(s), aInt(1)), aObj("k", aStr(s)), aObj(s, aInt(1)),
+			aObj(s, aStr(s), "zz", aStr(s)), aArr(aStr(s), aStr(s))}
+	}
+	strCase := func(s string, n int, src string) {
+		cs := ctxs(s)
+		for ci, t := range cs {
+			if ci >= 5 && n%4 != 0 {
+				continue
+			}
+			// htmlunsafe on and off for every string; the layout options rotate
+			emit(t, sopts((n+ci)%8), []pcfg{pcfgOf((n + ci*3) % 32)}, src)
+			emit(t, sopts(8+(n+ci+3)%8), nil, src)
+		}
+	}
+	n := 0
+	// (1) all strings of length <= 2: over all 256 bytes (thorough) / over the class representatives (quick)
+	alpha := senReps
+	if !quick {
+		alpha = make([]byte, 256)
+		for i := range alpha {
+			alpha[i] = byte(i)
+		}
+	}
+	strCase("", n, "len0")
+	for b := 0; b < 256; b++ { // length 1 over all bytes in both tiers
+		n++
+		strCase(string([]byte{byte(b)}), n, "len1")
+	}
+	for _, a := range alpha {
+		for _, b := range alpha {
+			n++
+			s := string([]byte{a, b})
+			if quick || len(alpha) == 256 {
+				// length 2: top level + element + value + key, one option set each (65 536 strings in the thorough tier)
+				k := n % 8
+				emit(aArr(aStr(s), aObj(s, aStr(s))), sopts(k), nil, "len2")
+				emit(aStr(s), sopts(8+k), nil, "len2")
+				if n%16 == 0 {
+					emit(aObj("k", aStr(s)), sopts(k), []pcfg{pcfgOf(n % 32)}, "len2")
+				}
+			}
+		}
+	}
+	// (2) length 3..4 over the representatives (sampled in the quick tier)
+	reps := senReps
+	for _, a := range reps {
+		for _, b := range reps {
+			for _, c := range reps {
+				n++
+				if quick && r.Intn(40) != 0 {
+					continue
+				}
+				s := string([]byte{a, b, c})
+				emit(aArr(aStr(s), aObj(s, aStr(s))), sopts(n%16), nil, "len3")
+				if !quick && n%5 == 0 {
+					d := reps[r.Intn(len(reps))]
+					s4 := s + string([]byte{d})
+					emit(aArr(aStr(s4), aObj(s4, aStr(s4))), sopts(n%16), nil, "len4")
+				}
+			}
+		}
+	}
+	if quick {
+		for k := 0; k < 1500; k++ {
+			b := make([]byte, 4)
+			for i := range b {
+				b[i] = reps[r.Intn(len(reps))]
+			}
+			s := string(b)
+			emit(aArr(aStr(s), aObj(s, aStr(s))), sopts(k%16), nil, "len4")
+		}
+	}
+	// (3) reserved spellings and the strings the model predicts to be misread
+	rs := append([]string{}, reserved...)
+	if *pred != "" {
+		f, err := os.Open(*pred)
+		if err != nil {
+			panic(err)
+		}
+		readLines(f, func(l []byte) {
+			var p struct {
+				S []int `json:"s"`
+			}
+			if json.Unmarshal(l, &p) == nil {
+				b := make([]byte, len(p.S))
+				for i, x := range p.S {
+					b[i] = byte(x)
+				}
+				rs = append(rs, string(b))
+			}
+		})
+	}
+	for _, s := range rs {
+		n++
+		strCase(s, n, "reserved")
+	}
+	// (4) numbers
+	for _, i := range append([]int64{0}, intLeaves...) {
+		for ci, t := range []M{aInt(i), aArr(aInt(i), aInt(i)), aObj("k", aInt(i))} {
+			emit(t, sopts(ci), []pcfg{pcfgOf(ci)}, "num")
+		}
+	}
+	for _, f := range append([]float64{0, math.Copysign(0, -1)}, fltLeaves...) {
+		for ci, t := range []M{aFlt(f), aArr(aFlt(f), aFlt(f)), aObj("k", aFlt(f))} {
+			emit(t, sopts(ci), []pcfg{pcfgOf(ci + 16)}, "num")
+		}
+	}
+	emit(aArr(aNull(), aBool(true), aBool(false), aArr(), aObj(), aStr("")), sopts(0), []pcfg{pcfgOf(2)}, "num")
+	// (5) TLC shapes: nesting, empty containers, mixed leaves, under the layout options
+	if *shp != "" {
+		f, err := os.Open(*shp)
+		if err != nil {
+			panic(err)
+		}
+		i := 0
+		readLines(f, func(l []byte) {
+			var s shape
+			if err := json.Unmarshal(l, &s); err != nil {
+				panic(err)
+			}
+			i++
+			fl := &filler{r: r, ks: keyUniverse[r.Intn(len(keyUniverse))]}
+			t := fl.fill(s)
+			if hasNilArr(t) {
+				return
+			}
+			emit(t, sopts((i+int(seed()))%16), []pcfg{pcfgOf((i * 7) % 32)}, "shape")
+		})
+	}
+	for _, d := range []int{1, 2, 15, 31, 65, 129, 140} {
+		var t M = aStr("true")
+		for k := 0; k < d; k++ {
+			if k%2 == 0 {
+				t = aArr(t)
+			} else {
+				t = aObj("-k", t)
+			}
+		}
+		emit(t, sopts(d%4), []pcfg{pcfgOf(d % 32)}, "nest")
+	}
+	w := bufio.NewWriterSize(os.Stdout, 1<<20)
+	cnt := len(all)
+	stride := 7919
+	for cnt%stride == 0 {
+		stride += 2
+	}
+	for i := 0; i < cnt; i++ {
+		w.Write(all[(i*stride)%cnt])
+	}
+	w.Flush()
+}
+
+func hasNilArr(t M) bool {
+	switch t["t"] {
+	case "narr":
+		return true
+	case "arr", "obj":
+		for _, e := range t["v"].([]any) {
+			if hasNilArr(e.(M)) {
+				return true
+			}
+		}
+	}
+	return false
+}
